@@ -305,6 +305,17 @@ func runC20(ctx *vh.Ctx) error {
 			return err
 		}
 	}
+	// one (predecessor, node) pair of a Workflow declared several times, across the kinds of dependency (c20_dup.go)
+	for _, c := range c20DDupFixed() {
+		if err := c20DOne(ctx, c, 5); err != nil {
+			return err
+		}
+	}
+	for i, ns := 0, ctx.N(500, 4000); i < ns && ctx.TimeLeft(); i++ {
+		if err := c20DOne(ctx, c20DGenDup(ctx.Rng), 3); err != nil {
+			return err
+		}
+	}
 	// static values of a Workflow and calls through retained node handles after Compile (Model/C20Static.lean)
 	for _, c := range c20SFixed() {
 		if err := c20SOne(ctx, c, repeats); err != nil {
